@@ -11,6 +11,8 @@ NOTE = ("Trusts clang 14's parser, Sema and CFG builder, the condition normalisa
         "Value clauses listed as not decided in the evidence are outside the claim.")
 
 CLAIMED = {
+ "C19": ("E-LOCK", "Lockset analysis (RAII guards on mutex members, held sets propagated to callees and into condition-variable predicates) showing that the counter map is only accessed under stats_mutex_ in single critical sections and thread_count_ only under thread_mutex_; lock-order acyclicity; path rules for the handler slot (taken before the thread starts, released with a notification on every exit), connection close on every exit, at most one reply, the request switch table, the bounded read loop, reset's key preservation, startSocket's failure returns and their conversion to an init failure, bounded copies into sun_path, destructor order, and exception escape from the two service thread roots. Holds for all interleavings and request bytes; timing and kernel socket behaviour are not decided.", "4/C19"),
+ "C20": ("E-LOCK", "Lockset analysis of the double-buffer state (every AsyncLogState field under state_.lock, with the single audited hand-over of the swapped-out queue), dominance of the backlog cap test over the enqueue with drop counting, a use-after-move rule on the size accounting, reset and drop reporting in the flusher, thread_local storage of the silencing flag and its independence from kmsgLog, and the stop/notify/join order with a final flush. Decides lock discipline and accounting structure for all schedules; exactly-once FIFO delivery and the numeric memory bound are not decided.", "4/C20"),
  "C12": ("E-ESCAPE", "Exception-escape propagation (all trigger classes, jsoncpp shape errors included) from the configuration-loading call edges of main(), the drop-in watcher thread entry and DropInServiceAdaptor::updateDropIns; a full-consumption rule on every std::sto* that converts configuration text (followed through the strict helper's position parameter); guard dominance of the float->integer conversion in parseSize and of the megabyte shift; parser/destination type agreement for every addArgumentCustom; a sibling rule over all plugin init overrides and PluginArgParser::parse's error edges; the JSON front end's invalid-plugin return; null-on-failure and IR order of the compile functions. Decided for all configuration texts at once; exact byte values of valid sizes are not decided.", "4/C12"),
  "C10": ("E-ESCAPE", "Exception-escape propagation over the whole-library call graph (try/handler type lattice, guard idioms for optional/SystemMaybe/map::at/getParent) from the four main-loop calls, an index-guard rule on every index into a control file's line vector (including the PSI parser through a summary of getPsiFormat), sibling agreement of readDirFromDIR's d_type and fstatat branches, erase-in-iteration over all tick-reachable functions, the by-fd discipline (path based opens only at audited sites) and a frozen table of abort sites. Decides these for every fault sequence of the stated model at once; freedom from all UB and from hangs is not decided, and std::sto* on present kernel files is outside the fault model.", "4/C10"),
  "C11": ("E-PATH", "Static rules on the ruleset-cgroup instance management: per-iteration at-most-once / exactly-once execution of the matching cgroup's instance with condition splitting on the xattr filter, creation only when absent and keyed consistently by absolute path, visited marking, erase-in-iteration freedom of the drop loop, prerun reaching every live instance, fresh plugin ownership of new instances and the default cgroup argument. Decided for all histories of cgroups appearing/disappearing because it is a property of the code paths; detector window values are not decided.", "4/C11"),
